@@ -2,7 +2,14 @@ package grpctarget
 
 import (
 	"context"
+	"crypto/ecdsa"
+	"crypto/elliptic"
+	"crypto/rand"
+	"crypto/tls"
+	"crypto/x509"
+	"crypto/x509/pkix"
 	"encoding/json"
+	"math/big"
 	"net"
 	"sort"
 	"strconv"
@@ -13,6 +20,7 @@ import (
 	"github.com/yandex/pandora/examples/grpc/server"
 	"google.golang.org/grpc"
 	"google.golang.org/grpc/codes"
+	"google.golang.org/grpc/credentials"
 	"google.golang.org/grpc/metadata"
 	"google.golang.org/grpc/reflection"
 	"google.golang.org/grpc/stats"
@@ -34,10 +42,39 @@ type Target struct {
 	rec      *Rec
 	name     string
 	slowFor  time.Duration
+	waitFor  time.Duration
 	track    bool
 	received int64
 	srv      *grpc.Server
 	Addr     string
+	answers  atomic.Value // map[string]codes.Code: entry name -> the status this target answers its calls with
+}
+
+// StatusByName: the gRPC status names the case generator uses.
+var StatusByName = map[string]codes.Code{"OK": codes.OK, "CANCELLED": codes.Canceled, "UNKNOWN": codes.Unknown,
+	"INVALID_ARGUMENT": codes.InvalidArgument, "DEADLINE_EXCEEDED": codes.DeadlineExceeded, "NOT_FOUND": codes.NotFound,
+	"ALREADY_EXISTS": codes.AlreadyExists, "PERMISSION_DENIED": codes.PermissionDenied, "RESOURCE_EXHAUSTED": codes.ResourceExhausted,
+	"FAILED_PRECONDITION": codes.FailedPrecondition, "ABORTED": codes.Aborted, "OUT_OF_RANGE": codes.OutOfRange,
+	"UNIMPLEMENTED": codes.Unimplemented, "INTERNAL": codes.Internal, "UNAVAILABLE": codes.Unavailable, "DATA_LOSS": codes.DataLoss,
+	"UNAUTHENTICATED": codes.Unauthenticated}
+
+// SetAnswers: calls of the named entries (the name is the part before the first '.' of the constant prefix of the
+// entry's string fields / metadata values, e.g. "e12" in "e12.name~5012") are answered with that status.
+func (t *Target) SetAnswers(m map[string]codes.Code) { t.answers.Store(m) }
+
+func (t *Target) answerFor(pres []string) codes.Code {
+	m, _ := t.answers.Load().(map[string]codes.Code)
+	if len(m) == 0 {
+		return codes.OK
+	}
+	for _, p := range pres {
+		if i := strings.IndexByte(p, '.'); i > 0 {
+			if c, ok := m[p[:i]]; ok {
+				return c
+			}
+		}
+	}
+	return codes.OK
 }
 
 func ownMetadata(k string) bool {
@@ -72,6 +109,31 @@ type GRPCOpts struct {
 	TrackConns bool
 	Addr       string
 	SlowFor    time.Duration
+	WaitFor    time.Duration // a Hello whose name starts with "wait" is answered after that long
+	Rich       bool // also serve verif.MapService (rich.go): the JSON -> protobuf mapping classes
+	TLS        bool // serve TLS with a self-signed certificate (the gun's `tls: true` does not verify it)
+	// ReflNeeds: the reflection service only answers streams whose metadata carries these pairs (others: Unauthenticated)
+	ReflNeeds map[string]string
+}
+
+// ReflKey: the metadata key the conformance runs use for reflection credentials (reflect_metadata); the target reports
+// for every load call whether it carried that key -- it must not.
+const ReflKey = "x-refl-auth"
+
+func selfSigned() tls.Certificate {
+	key, err := ecdsa.GenerateKey(elliptic.P256(), rand.Reader)
+	if err != nil {
+		panic(err)
+	}
+	tmpl := &x509.Certificate{SerialNumber: big.NewInt(1), Subject: pkix.Name{CommonName: "verif target"},
+		NotBefore: time.Now().Add(-time.Hour), NotAfter: time.Now().Add(24 * time.Hour),
+		KeyUsage: x509.KeyUsageDigitalSignature, ExtKeyUsage: []x509.ExtKeyUsage{x509.ExtKeyUsageServerAuth},
+		IPAddresses: []net.IP{net.ParseIP("127.0.0.1")}, DNSNames: []string{"localhost"}}
+	der, err := x509.CreateCertificate(rand.Reader, tmpl, tmpl, &key.PublicKey, key)
+	if err != nil {
+		panic(err)
+	}
+	return tls.Certificate{Certificate: [][]byte{der}, PrivateKey: key}
 }
 
 type connKey struct{}
@@ -96,18 +158,39 @@ func (h connStats) TagRPC(ctx context.Context, _ *stats.RPCTagInfo) context.Cont
 func (h connStats) HandleRPC(context.Context, stats.RPCStats)                       {}
 
 func StartGRPCOpts(rec *Rec, o GRPCOpts) *Target {
-	t := &Target{rec: rec, name: o.Name, slowFor: o.SlowFor, track: o.TrackConns}
+	t := &Target{rec: rec, name: o.Name, slowFor: o.SlowFor, waitFor: o.WaitFor, track: o.TrackConns}
 	opts := []grpc.ServerOption{grpc.UnaryInterceptor(t.intercept)}
+	if o.TLS {
+		opts = append(opts, grpc.Creds(credentials.NewTLS(&tls.Config{Certificates: []tls.Certificate{selfSigned()}})))
+	}
 	if o.TrackConns {
 		opts = append(opts, grpc.StatsHandler(connStats{t}), grpc.StreamInterceptor(
 			func(srv interface{}, ss grpc.ServerStream, info *grpc.StreamServerInfo, h grpc.StreamHandler) error {
 				id, _ := ss.Context().Value(connKey{}).(int)
-				t.rec.Emit(E{"ev": "ReflCall", "srv": t.name, "conn": id, "method": info.FullMethod})
+				md, _ := metadata.FromIncomingContext(ss.Context())
+				auth := ""
+				if v := md.Get(":authority"); len(v) > 0 {
+					auth = v[0]
+				}
+				ok := true
+				for k, want := range o.ReflNeeds {
+					if v := md.Get(k); len(v) != 1 || v[0] != want {
+						ok = false
+					}
+				}
+				t.rec.Emit(E{"ev": "ReflCall", "srv": t.name, "conn": id, "method": info.FullMethod, "ok": ok,
+					"reflmd": strings.Join(md.Get(ReflKey), ","), "authority": auth})
+				if !ok {
+					return status.Error(codes.Unauthenticated, "reflection needs credentials")
+				}
 				return h(srv, ss)
 			}))
 	}
 	t.srv = grpc.NewServer(opts...)
 	server.RegisterTargetServiceServer(t.srv, t)
+	if o.Rich {
+		t.registerRich(t.srv)
+	}
 	if o.Reflection {
 		reflection.Register(t.srv)
 	}
@@ -137,6 +220,12 @@ func (t *Target) Stop() { t.srv.Stop() }
 func (t *Target) Received() int64 { return atomic.LoadInt64(&t.received) }
 
 func (t *Target) intercept(ctx context.Context, req interface{}, info *grpc.UnaryServerInfo, h grpc.UnaryHandler) (interface{}, error) {
+	if strings.HasPrefix(info.FullMethod, "/"+RichService+"/") {
+		return t.interceptRich(ctx, req, info, h)
+	}
+	if md, ok := metadata.FromIncomingContext(ctx); ok && len(md.Get("x-case")) > 0 { // a case of the JSON mapping run
+		return t.interceptRich(ctx, req, info, h)
+	}
 	msg := map[string]interface{}{}
 	if pm, ok := req.(proto.Message); ok {
 		b, err := protojson.MarshalOptions{UseProtoNames: true}.Marshal(pm)
@@ -144,6 +233,7 @@ func (t *Target) intercept(ctx context.Context, req interface{}, info *grpc.Unar
 			_ = json.Unmarshal(b, &msg)
 		}
 	}
+	pres := []string{} // constant prefixes ("<entry>.<field>"): the entry a call belongs to
 	toks := []string{} // the token part of every value written as "<prefix>~<token>"
 	fields := []E{}
 	names := make([]string, 0, len(msg))
@@ -162,10 +252,16 @@ func (t *Target) intercept(ctx context.Context, req interface{}, info *grpc.Unar
 		fields = append(fields, E{"f": k, "v": s, "pre": pre, "tok": tok})
 		if pre != "" {
 			toks = append(toks, tok)
+			pres = append(pres, pre)
 		}
 	}
 	mds := []E{}
+	authority, reflmd := "", false
 	if md, ok := metadata.FromIncomingContext(ctx); ok {
+		if v := md.Get(":authority"); len(v) > 0 {
+			authority = v[0]
+		}
+		reflmd = len(md.Get(ReflKey)) > 0
 		keys := make([]string, 0, len(md))
 		for k := range md {
 			if !ownMetadata(k) {
@@ -174,11 +270,15 @@ func (t *Target) intercept(ctx context.Context, req interface{}, info *grpc.Unar
 		}
 		sort.Strings(keys)
 		for _, k := range keys {
+			if k == "x-prev" { // (isolation runs) the value a later scenario step carries from an earlier one: not this call's own token
+				continue
+			}
 			for _, v := range md[k] {
 				pre, tok := SplitTok(v)
 				mds = append(mds, E{"k": k, "v": v, "pre": pre, "tok": tok})
 				if pre != "" {
 					toks = append(toks, tok)
+					pres = append(pres, pre)
 				}
 			}
 		}
@@ -190,7 +290,25 @@ func (t *Target) intercept(ctx context.Context, req interface{}, info *grpc.Unar
 	if t.track {
 		conn, _ = ctx.Value(connKey{}).(int)
 	}
-	t.rec.Emit(E{"ev": "Recv", "proto": "grpc", "srv": t.name, "conn": conn, "method": m, "fields": fields, "md": mds, "toks": toks})
+	ans := t.answerFor(pres)
+	// (isolation runs, FailShare) Auth is the step whose answer a later step quotes; Order carries it back in x-prev
+	capStep, from, prev := "", "", ""
+	if t.FailShare {
+		switch {
+		case strings.HasSuffix(m, ".Auth"):
+			capStep = "c1"
+		case strings.HasSuffix(m, ".Order"):
+			from, prev = "c1", "<none>"
+			if md, ok := metadata.FromIncomingContext(ctx); ok && len(md.Get("x-prev")) > 0 {
+				_, prev = SplitTok(md.Get("x-prev")[0])
+			}
+		}
+	}
+	t.rec.Emit(E{"ev": "Recv", "proto": "grpc", "srv": t.name, "conn": conn, "method": m, "fields": fields, "md": mds, "toks": toks, "ans": ans.String(),
+		"authority": authority, "reflmd": reflmd, "cap": capStep, "from": from, "prev": prev})
+	if ans != codes.OK {
+		return nil, status.Error(ans, "the target answers this entry with "+ans.String())
+	}
 	return h(ctx, req)
 }
 
@@ -201,6 +319,13 @@ func (t *Target) Hello(ctx context.Context, r *server.HelloRequest) (*server.Hel
 		case <-ctx.Done():
 			// the caller's deadline (propagated by grpc) is over: a real server's work is cancelled, it does not
 			// answer OK at the very moment the deadline fires
+			return nil, status.FromContextError(ctx.Err()).Err()
+		}
+	}
+	if t.waitFor > 0 && strings.HasPrefix(r.GetName(), "wait") {
+		select {
+		case <-time.After(t.waitFor):
+		case <-ctx.Done():
 			return nil, status.FromContextError(ctx.Err()).Err()
 		}
 	}
